@@ -153,6 +153,11 @@ def unmarshal (avc : Bool) (buf : Bytes) (payload : Bytes) : Res Bytes × Bytes 
         else (.ok [], buf')
     else (.err .other, buf)
 
+/-- `H264Packet.Unmarshal` with the `SetZeroAllocation` switch of `videoDepacketizer`: when set,
+    the payload is handed back untouched (nil included) and nothing is parsed or retained -/
+def unmarshalZ (zero avc : Bool) (buf : Bytes) (payload : Bytes) : Res Bytes × Bytes :=
+  if zero then (.ok payload, buf) else unmarshal avc buf payload
+
 /-- feed a sequence of payloads to one receiver; the results in order and the final buffer -/
 def run (avc : Bool) : Bytes → List Bytes → List (Res Bytes) × Bytes
   | buf, [] => ([], buf)
